@@ -57,6 +57,7 @@ typedef struct sthr {
     uint64_t wake_ns;
     const char *what;
     uint64_t stall_until;
+    int stall_next;             /* stall this thread at its next scheduling point (it just performed an atomic operation) */
     uintptr_t sp_addr[4];
     uint64_t sp_val[4];
     int sp_pos, spin, cas_spin;
@@ -90,6 +91,7 @@ static struct {
     /* stalls */
     uint64_t stall_pts[8];
     int stall_n, stall_i;
+    int stall_arm;              /* the next atomic operation of any thread marks that thread for a stall right after it */
     /* stats */
     sim_stats_t st;
     uint64_t fp;
@@ -308,6 +310,10 @@ static void maybe_stall(sthr_t *t)
     /* record mode: at pre-drawn global step indices, stall a random live thread */
     while (g.stall_i < g.stall_n && g.steps >= g.stall_pts[g.stall_i]) {
         g.stall_i++;
+        /* half of the stalls are not given to a random thread now but to whichever thread performs the next atomic
+         * operation (CAS, fetch-and-add, lock, unlock ...), right after that operation: the thread that has just
+         * published something is the one whose delay opens the windows that matter */
+        if (rng_next(&g.rng[SIM_RNG_SCHED]) & 1) { g.stall_arm = 1; continue; }
         int live[SIM_MAX_THREADS], n = 0;
         for (int i = 0; i < g.nthr; i++) if (g.thr[i].state == ST_RUNNABLE || g.thr[i].state == ST_BLOCKED) live[n++] = i;
         if (!n) return;
@@ -359,6 +365,7 @@ static inline void sp(int kind)
         if ((t->rp_i < t->rp_n && t->rp[t->rp_i].cnt <= t->cnt) || g.steps >= g.tail_after) sp_slow(t, kind, 0);
         return;
     }
+    if (t->stall_next || (g.stall_arm && kind == SIM_K_ATOMIC)) { sp_slow(t, kind, 0); return; }
     g.budget -= g.w[kind];
     if (g.budget > 0 && g.steps < g.tail_after) return;
     sp_slow(t, kind, 0);
@@ -372,7 +379,8 @@ static void enter_tail(void)
     g.tail = 1;
     g.strategy = SIM_STRAT_RR;
     g.stall_n = 0;
-    for (int i = 0; i < g.nthr; i++) g.thr[i].stall_until = 0;
+    g.stall_arm = 0;
+    for (int i = 0; i < g.nthr; i++) { g.thr[i].stall_until = 0; g.thr[i].stall_next = 0; }
     g.tail_cnt = 0;
 }
 
@@ -395,6 +403,18 @@ static void sp_slow(sthr_t *t, int kind, int forced)
         return;
     }
     if (g.stall_n) maybe_stall(t);
+    if (t->stall_next) {
+        /* the access after the marked atomic operation: this thread now stalls */
+        t->stall_next = 0;
+        double u = sim_rand_unit(SIM_RNG_SCHED);
+        uint64_t d = (uint64_t)(10000.0 * pow(1000.0, u));      /* log-uniform 10us .. 10ms simulated */
+        t->stall_until = g.now + d;
+        g.st.stalls_fired++;
+        tr_add('S', t->id, t->cnt, t->id, d);
+        decide(t, 1);
+        return;
+    }
+    if (g.stall_arm && kind == SIM_K_ATOMIC) { g.stall_arm = 0; t->stall_next = 1; }
     if (g.strategy == SIM_STRAT_PCT) {
         if (!forced) {
             /* priority change point */
@@ -588,7 +608,7 @@ void sim_begin(const sim_params_t *p)
         draw_budget();
     }
     {
-        int ns = p->stalls >= 0 ? p->stalls : (r_stall % 3 == 0 ? 1 + (int)((r_stall >> 8) % 2) : 0);
+        int ns = p->stalls >= 0 ? p->stalls : (r_stall % 2 == 0 ? 1 + (int)((r_stall >> 8) % 3) : 0);
         uint64_t len = p->stall_len ? p->stall_len : 20000;
         if (ns > 8) ns = 8;
         g.stall_n = ns;
